@@ -48,6 +48,9 @@ using Vec = std::vector<LL>;
 // ---------------------------------------------------------------- handler + fork machinery
 static int g_pipe = -1;
 static std::function<std::string()> g_snap;
+// valid calls that bring the object into its pre-state (hist=...): run in the child, before the pre-state snapshot, so that a
+// (mutated) library whose valid call fires the handler is reported for this case line instead of killing the harness
+static std::function<void()> g_setup;
 
 namespace etl {
 template <typename Assertion>
@@ -109,7 +112,7 @@ static std::string san_kind(std::string const& err, int status)
 // `snap`: canonical text of the object under test (callable in the handler); `body`: the call, returns the ok-line.
 static std::string in_child(std::function<std::string()> snap, std::function<std::string()> body)
 {
-    std::string pre = snap ? snap() : std::string("-");
+    std::string pre;
     int p[2], q[2];
     if (::pipe(p) != 0 || ::pipe(q) != 0) { std::perror("pipe"); std::exit(2); }
     std::fflush(stdout);
@@ -121,6 +124,9 @@ static std::string in_child(std::function<std::string()> snap, std::function<std
         ::dup2(q[1], 2);
         g_pipe = p[1];
         g_snap = snap;
+        if (g_setup) g_setup();
+        std::string ps = "P " + (snap ? snap() : std::string("-")) + "\n";
+        (void)!::write(p[1], ps.data(), ps.size());
         std::string r = body() + "\n";
         (void)!::write(p[1], r.data(), r.size());
         ::_exit(0);
@@ -133,6 +139,11 @@ static std::string in_child(std::function<std::string()> snap, std::function<std
     ::close(q[0]);
     int status = 0;
     ::waitpid(pid, &status, 0);
+    if (out.rfind("P ", 0) == 0) { // the pre-state snapshot taken in the child after the setup calls
+        auto nl = out.find('\n');
+        pre     = out.substr(2, nl == std::string::npos ? std::string::npos : nl - 2);
+        out     = nl == std::string::npos ? std::string() : out.substr(nl + 1);
+    } else pre = "<setup did not finish>";
     if (!out.empty() && out.back() == '\n') out.pop_back();
     if (WIFEXITED(status) && WEXITSTATUS(status) == 42 && out.rfind("A ", 0) == 0) {
         auto sp          = out.find(' ', 2);
@@ -258,9 +269,11 @@ static std::string sv_ops(Line const& l)
     // hist=1..3: the same abstract state reached through insert/erase, pop/push, resize up and down (valid calls only)
     if constexpr (Cap != 0) {
         int const hist = static_cast<int>(l.i("hist", 0));
-        if (hist == 1 && e.size() < Cap) { v->insert(v->begin(), T(77)); v->erase(v->begin()); }
-        if (hist == 2 && !e.empty()) { T last = v->back(); v->pop_back(); v->emplace_back(last); }
-        if (hist == 3) { v->resize(Cap); v->resize(e.size()); }
+        g_setup = [v, hist, n0 = e.size()] {
+            if (hist == 1 && n0 < Cap) { v->insert(v->begin(), T(77)); v->erase(v->begin()); }
+            if (hist == 2 && n0 != 0) { T last = v->back(); v->pop_back(); v->emplace_back(last); }
+            if (hist == 3) { v->resize(Cap); v->resize(n0); }
+        };
     }
     V const* cv = v;
     auto snap   = [v] { return fmt(contents(*v, Cap)); };
@@ -394,8 +407,10 @@ static std::string iv_ops(Line const& l)
     for (auto x : e) v->try_push_back(static_cast<int>(x));
     if constexpr (Cap != 0) { // hist=1,2: the same abstract state reached through push/pop
         int const hist = static_cast<int>(l.i("hist", 0));
-        if (hist == 1 && e.size() < Cap) { v->unchecked_push_back(77); v->pop_back(); }
-        if (hist == 2 && !e.empty()) { int last = v->back(); v->pop_back(); v->unchecked_emplace_back(last); }
+        g_setup = [v, hist, n0 = e.size()] {
+            if (hist == 1 && n0 < Cap) { v->unchecked_push_back(77); v->pop_back(); }
+            if (hist == 2 && n0 != 0) { int last = v->back(); v->pop_back(); v->unchecked_emplace_back(last); }
+        };
     }
     V const* cv = v;
     auto snap   = [v] { return fmt(contents(*v, Cap)); };
@@ -581,9 +596,11 @@ static std::string str_ops(Line const& l)
     for (auto x : e) s->push_back(static_cast<char>(x));
     { // hist=1..3: the same abstract state reached through insert/erase, pop/push, a longer string that was cut back
         int const hist = static_cast<int>(l.i("hist", 0));
-        if (hist == 1 && e.size() < Cap) { s->insert(0, 1, 'Z'); s->erase(0, 1); }
-        if (hist == 2 && !e.empty()) { char last = s->back(); s->pop_back(); s->push_back(last); }
-        if (hist == 3) { s->append(Cap - e.size(), 'Q'); s->erase(e.size(), Cap); }
+        g_setup = [s, hist, n0 = e.size()] {
+            if (hist == 1 && n0 < Cap) { s->insert(0, 1, 'Z'); s->erase(0, 1); }
+            if (hist == 2 && n0 != 0) { char last = s->back(); s->pop_back(); s->push_back(last); }
+            if (hist == 3) { s->append(Cap - n0, 'Q'); s->erase(n0, Cap); }
+        };
     }
     S const* cs = s;
     auto state  = [s] {
@@ -1036,7 +1053,16 @@ static std::string sc_ops(Line const& l)
     return both(impl, oracle);
 }
 
+static std::string step_(Line const& l);
 static std::string step(Line const& l)
+{
+    g_setup = nullptr;
+    std::string r = step_(l);
+    g_setup = nullptr;
+    return r;
+}
+
+static std::string step_(Line const& l)
 {
     auto const& op = l.op;
     auto pre = op.substr(0, op.find('.'));
